@@ -72,7 +72,7 @@ uint64_t hash_bytes(const void *p, size_t n, uint64_t h) {
 }
 
 const char *call_name(int c) {
-  static const char *n[] = {"none", "read", "write", "close", "unlink", "fchown", "fchmod", "futimens", "open", "lstat", "fstat"};
+  static const char *n[] = {"none", "read", "write", "close", "unlink", "fchown", "fchmod", "futimens", "open", "lstat", "fstat", "stderr"};
   return c >= 0 && c < C_NCALLS ? n[c] : "?";
 }
 const char *policy_name(int p) {
@@ -970,7 +970,14 @@ void simw_free(void *p) { SHIM;
 }
 
 // ---- stdio
+static Fault *match_fault(int call, int role);
+static bool stderr_fails(FILE *f) {
+  if (f == stdout) return false;
+  if (Fault *ft = match_fault(C_STDERR, R_ANY)) { errno = ft->err; return true; }
+  return false;
+}
 static int cap(FILE *f, const char *fmt, va_list ap) {
+  if (stderr_fails(f)) return -1;
   char b[2048];
   int n = vsnprintf(b, sizeof b, fmt, ap);
   if (n < 0) return n;
@@ -988,7 +995,7 @@ int simw_putchar(int c) { SHIM; return simw_fputc(c, stdout); }
 int simw_fputs(const char *str, FILE *f) { SHIM; if (f == stdout) S->res->out.append(str); else S->res->err.append(str); return 1; }
 int simw_puts(const char *str) { SHIM; S->res->out.append(str); S->res->out.append("\n"); return 1; }
 size_t simw_fwrite(const void *p, size_t sz, size_t n, FILE *f) { SHIM; if (f == stdout) S->res->out.append((const char *)p, sz * n); else S->res->err.append((const char *)p, sz * n); return n; }
-int simw_fflush(FILE *f) { SHIM; (void)f; return 0; }
+int simw_fflush(FILE *f) { SHIM; if (f != stdout && stderr_fails(f)) return EOF; return 0; }
 int simw_fclose(FILE *f) { SHIM; (void)f; return 0; }
 void simw_setbuf(FILE *f, char *b) { SHIM; (void)f; (void)b; }
 
